@@ -273,13 +273,32 @@ pub fn run(ctx: &mut Ctx) {
     for _ in 0..(if quick { 300 } else { 6000 }) {
         strings.push(gen_string(&mut rng));
     }
+    // block-scalar shaped strings: leading blanks on the first line, blank lines, only breaks,
+    // every count of trailing breaks, short and longer than the fold column
+    for lead in ["", " ", "  ", "   ", "\t"] {
+        for body in ["x", "two words", &"w".repeat(90), &"word ".repeat(25)] {
+            for mid in ["\n", "\n\n", "\n  \n", "\n indented\n"] {
+                for tail in ["", "\n", "\n\n", "\n\n\n"] {
+                    if quick && (lead.len() + mid.len() + tail.len()) % 3 == 1 {
+                        continue;
+                    }
+                    strings.push(format!("{lead}{body}{mid}second{tail}"));
+                }
+            }
+        }
+    }
+    for n in [1usize, 2, 3, 5, 81, 85, 120] {
+        strings.push("\n".repeat(n));
+        strings.push(format!(" {}", "\n".repeat(n)));
+        strings.push(format!("{}x", "\n".repeat(n)));
+    }
     strings.sort();
     strings.dedup();
     ctx.count(&format!("strings:{}", strings.len()));
 
     let kstep = if quick { 9 } else { 1 };
     for (i, s) in strings.iter().enumerate() {
-        if i % kstep == 0 || s.chars().count() <= 1 {
+        if i % kstep == 0 || s.chars().count() <= 1 || WORDS.contains(&s.as_str()) {
             k_string(ctx, s);
         }
     }
@@ -306,7 +325,7 @@ pub fn run(ctx: &mut Ctx) {
     let vectors = option_vectors(quick);
     let sstep = if quick { 4 } else { 1 };
     for (i, s) in strings.iter().enumerate() {
-        if i % sstep != 0 && s.chars().count() > 1 {
+        if i % sstep != 0 && s.chars().count() > 1 && !WORDS.contains(&s.as_str()) {
             continue;
         }
         for (so, y12, name) in &vectors {
